@@ -11,12 +11,25 @@ from . import env
 PATH = os.path.join(env.VERIF_ROOT, "known_findings.json")
 
 
+DIR = os.path.join(env.VERIF_ROOT, "known_findings.d")
+
+
 def load() -> Dict[str, dict]:
-    if not os.path.exists(PATH):
-        return {}
-    with open(PATH) as f:
-        data = json.load(f)
-    return {e["id"]: e for e in data.get("findings", [])}
+    """known_findings.json plus known_findings.d/*.json (same format; committed)."""
+    out: Dict[str, dict] = {}
+    paths = [PATH] if os.path.exists(PATH) else []
+    if os.path.isdir(DIR):
+        paths += [os.path.join(DIR, n) for n in sorted(os.listdir(DIR)) if n.endswith(".json")]
+    for p in paths:
+        with open(p) as f:
+            data = json.load(f)
+        for e in data.get("findings", []):
+            if e["id"] in out:
+                # same finding listed for several properties: merge the property lists
+                out[e["id"]]["properties"] = sorted(set(out[e["id"]].get("properties", [])) | set(e.get("properties", [])))
+            else:
+                out[e["id"]] = e
+    return out
 
 
 def is_known(fid: str, prop: str) -> bool:
